@@ -300,6 +300,10 @@ class Str(object):
                 literal += '\\r'
             elif c == '\\':
                 literal += '\\\\'
+            elif c == '\0':
+                literal += '\\x00'
+            elif '\ud800' <= c <= '\udfff':
+                literal += '\\u{:04x}'.format(ord(c))
             else:
                 literal += c
 
@@ -311,7 +315,7 @@ class Str(object):
         if self._s == '':
             return str(min(self.allowed_quotes, key=len)) * 2
 
-        if '\0' in self._s or ('\\' in self._s and not self.pep701):
+        if not self.pep701 and ('\0' in self._s or '\\' in self._s):
             raise ValueError('Impossible to represent a character in f-string expression part')
 
         if not self.pep701 and ('\n' in self._s or '\r' in self._s):
